@@ -23,12 +23,29 @@ structure Phases (σ ε : Type) where
   opt : σ → Except ε σ
   relabel : σ → Except ε σ
 
-/-- one fit-and-relabel round with index `i` (lines 110-124). -/
-def round {σ ε : Type} (P : Phases σ ε) (i : Nat) (s : σ) : Except ε σ := do
+/-- one fit-and-relabel round with index `i` (lines 110-124), as a reader writes it down. -/
+def roundSpec {σ ε : Type} (P : Phases σ ε) (i : Nat) (s : σ) : Except ε σ := do
   let s1 ← if repopAfterRound < i then P.repop s else pure s
   let s2 ← P.stats s1
   let s3 ← P.opt s2
   P.relabel s3
+
+/-- one phase call, by its code in `Constants.phaseOrder` (1 repopulate — under the round-index guard
+iff the source has it there —, 2 statistics, 3 optimise, 4 relabel). -/
+def applyPhase {σ ε : Type} (P : Phases σ ε) (i : Nat) (code : Nat) (s : σ) : Except ε σ :=
+  match code with
+  | 1 => if repopGuarded = 1 then (if repopAfterRound < i then P.repop s else pure s) else P.repop s
+  | 2 => P.stats s
+  | 3 => P.opt s
+  | 4 => P.relabel s
+  | _ => pure s
+
+/-- one round as TRANSLATED FROM THE SOURCE on every run: the phase calls in the order the AST of
+`fit_stacked_data` has them (`Generated/Constants.lean`).  This is the definition the loop, the
+theorems and the compiled driver use; `round_eq_spec` (Proofs/MainLoop.lean) proves it equal to
+`roundSpec` — a proof that only checks while the source's round has the shape C09 describes. -/
+def round {σ ε : Type} (P : Phases σ ε) (i : Nat) (s : σ) : Except ε σ :=
+  phaseOrder.foldlM (fun s c => applyPhase P i c s) s
 
 /-- what a run produced: the last state, the number of rounds performed, and the state
 after every round (oldest first). -/
@@ -156,6 +173,24 @@ def admmLoop {ν : Type} (step : Admm ν → Admm ν) (stop : Admm ν → ν →
     let s' := step s
     if 0 < it ∧ stop s' s.z then (s'.x, it + 1)
     else admmLoop step stop rescale fuel (it + 1) (if 0 < it then rescale s' s.z else s')
+
+/-- one sweep TRANSLATED FROM THE SOURCE: the X, Z and U updates applied in the order the AST of
+`run_admm_optimization` has them (`Constants.admmUpdateOrder`; 1 = X, 2 = Z, 3 = U), each reading the
+state the previous one left. -/
+def sweep {ν : Type} (ux uz uu : Admm ν → ν) (s : Admm ν) : Admm ν :=
+  List.foldl (fun s c =>
+    match c with
+    | 1 => { s with x := ux s }
+    | 2 => { s with z := uz s }
+    | 3 => { s with u := uu s }
+    | _ => s) s Constants.admmUpdateOrder
+
+/-- the sweep as the paper (and C02) describe it: X from (z, u), then Z from (the new x, u), then U
+from (u, the new x, the new z). -/
+def sweepSpec {ν : Type} (ux uz uu : Admm ν → ν) (s : Admm ν) : Admm ν :=
+  let s1 := { s with x := ux s }
+  let s2 := { s1 with z := uz s1 }
+  { s2 with u := uu s2 }
 
 def admmRun {ν : Type} (step : Admm ν → Admm ν) (stop : Admm ν → ν → Bool) (rescale : Admm ν → ν → Admm ν)
     (maxIter : Nat) (zero : ν) : ν × Nat :=
